@@ -7,6 +7,12 @@
 #include <stdint.h>
 #include "cJSON.h"
 
+/* A failure of the probe layer itself (out of memory, out of guard regions).  Never a verdict about the library: the
+ * process ends with a code of its own (97), which the runner reports as a harness error (check exit status 2). */
+#include <stdio.h>
+#include <unistd.h>
+#define harness_die(why) do { fprintf(stderr, "VERIF-HARNESS: %s\n", (why)); _exit(97); } while (0)
+
 #ifdef __cplusplus
 extern "C" {
 #endif
